@@ -59,6 +59,9 @@ type sessCfg struct {
 	InitFails int           `json:"initial_dial_failures,omitempty"`
 	CloseLat  time.Duration `json:"underlying_close_latency,omitempty"`
 	WriteLat  time.Duration `json:"underlying_write_latency,omitempty"`
+	// CloseFails: the underlying connection's Close reports an error after closing (a closing handshake that a dead
+	// peer never completes, a connection that is already broken)
+	CloseFails bool `json:"underlying_close_reports_error,omitempty"`
 }
 
 func openSession(c sessCfg, virt bool) (*session, error) {
@@ -66,6 +69,7 @@ func openSession(c sessCfg, virt bool) (*session, error) {
 	s.rec = &recorder{w: s.w, sit: "live"}
 	s.w.budget = c.Budget
 	s.w.closeLatency = c.CloseLat
+	s.w.closeFails = c.CloseFails
 	s.w.writeLatency = c.WriteLat
 	s.w.onExhaust = func() { s.rec.setSituation("exhausted") }
 	for i := 0; i < c.InitFails; i++ {
